@@ -410,6 +410,10 @@ func c06Mutate(t *c06TLV, f c06Fault, pt string) {
 		default:
 			panic("c06: val fault on type " + fmt.Sprint(t.typ))
 		}
+	case "valb": // AS_CONFED_SEQUENCE behind the ordinary segment (plain eBGP peer)
+		t.val = append(append([]byte{}, t.val...), c06Seg(3, 65010)...)
+	case "valbs": // AS_CONFED_SET behind the ordinary segment
+		t.val = append(append([]byte{}, t.val...), c06Seg(4, 65010)...)
 	case "valm": // multicast next hop
 		t.val = []byte{224, 0, 0, 5}
 	case "segtype":
